@@ -53,12 +53,12 @@ pub struct FV(pub u64);
 
 impl fmt::Debug for FK {
     fn fmt(&self, f: &mut fmt::Formatter<'_>) -> fmt::Result {
-        crate::payload::pad_id(f, b'k', self.0)
+        crate::payload::dbg_id(f, b'k', self.0)
     }
 }
 impl fmt::Debug for FV {
     fn fmt(&self, f: &mut fmt::Formatter<'_>) -> fmt::Result {
-        crate::payload::pad_id(f, b'v', self.0)
+        crate::payload::dbg_id(f, b'v', self.0)
     }
 }
 impl fmt::Display for FK {
